@@ -771,6 +771,37 @@ example :
     viewOf [.error "KeyError", .ok 3] [(1 : Int)] 0 = [.ok 1, .error "KeyError", .ok 3] ∧
     viewOf [.ok 3] [(1 : Int)] 0 = [.ok 1, .ok 3] := ⟨rfl, by decide, rfl, rfl, rfl⟩
 
+/-- **C03.11j (`skip` with a count that `int(round(n))` refuses)** `s.skip(inf)` / `skip(-inf)` (OverflowError),
+`skip(nan)` (ValueError), `skip(None)` (TypeError): the CALL succeeds and returns `self` for every count —
+`int(round(n))` is evaluated lazily, inside the generator; no tee buffer is touched (a copy made before
+keeps everything); the first read of the Stream raises that error, after it the Stream is empty. -/
+theorem skip_refused_lazy (f : Nat) (st : XSt α) (i : Nat) (it : XIt α) (c : Cnt) (e : String)
+    (hi : st.pool[i]? = some (some it)) (hc : roundCount c = .error e) :
+    ∃ st' : XSt α, xstep f st (xskipOf i c) = some (st', .unit) ∧ st'.heap = st.heap ∧
+      (∀ j, j ≠ i → st'.pool[j]? = st.pool[j]?) ∧
+      xrun (f + 1) st' [.next i, .next i, .take i (.int 3)] =
+        [some (.err e), some (.err "StopIteration"), some (.items [])] := by
+  refine ⟨⟨st.heap, st.pool.set i (some (.src [.error e]))⟩, ?_, rfl, ?_, ?_⟩
+  · simp [xskipOf, hc, xstep, hi]
+  · intro j hj; simp [List.getElem?_set, Ne.symm hj]
+  · have hlt : i < st.pool.length := (List.getElem?_eq_some_iff.1 hi).1
+    simp [xrun, xstep, xtakeIt, takeMode, xnext, xtakeN, obsOf, hlt]
+
+/-- the refused counts and their errors; every other count is accepted and rounded half-to-even -/
+theorem skip_refused_kinds :
+    roundCount .inf = .error "OverflowError" ∧ roundCount .ninf = .error "OverflowError" ∧
+    roundCount .nan = .error "ValueError" ∧ roundCount .none = .error "TypeError" ∧
+    (∀ n : Int, (xskipOf 0 (.int n) : XOp α) = .skip 0 n.toNat) ∧
+    (∀ x : Rat, (xskipOf 0 (.flt x) : XOp α) = .skip 0 (roundHalfEven x).toNat) :=
+  ⟨rfl, rfl, rfl, rfl, fun _ => rfl, fun _ => rfl⟩
+
+/-- non-vacuity of C03.11j: a copy made before `skip(inf)` keeps everything -/
+example :
+    xrun 9 (XSt.empty : XSt Int)
+      [.new [.ok 1, .ok 2], .copy 0, xskipOf 0 .inf, .next 0, .next 0, .drain 1, xskipOf 1 .nan, .drain 1, .drain 1]
+    = [some (.new 0), some (.new 1), some .unit, some (.err "OverflowError"), some (.err "StopIteration"),
+       some (.items [1, 2]), some .unit, some (.err "ValueError"), some (.items [])] := by decide +kernel
+
 /-- non-vacuity: `map` goes on after the exception, `take(5)` raises and the Stream goes on behind the
     raising position; `limit` and `skip` are finished by it; `s.attr` goes on -/
 example :
